@@ -1,3 +1,4 @@
+use crate::interfere;
 use crate::seq;
 use crate::soft::{self, Info, X};
 use rayon::prelude::*;
@@ -159,7 +160,7 @@ pub(crate) enum Op {
     Roundtrip,
 }
 
-const ALL_OPS: [Op; 22] = [
+pub(crate) const ALL_OPS: [Op; 22] = [
     Op::Add,
     Op::Sub,
     Op::Mul,
@@ -239,7 +240,7 @@ impl Op {
     pub(crate) fn from_name(s: &str) -> Option<Op> {
         ALL_OPS.iter().copied().find(|o| o.name() == s)
     }
-    fn binary(self) -> bool {
+    pub(crate) fn binary(self) -> bool {
         BIN_OPS.contains(&self)
     }
     /// the underlying arithmetic operation of an arithmetic / assigning form
@@ -333,60 +334,219 @@ fn same_f64(a: f64, b: f64) -> bool {
     a.to_bits() == b.to_bits() || (a.is_nan() && b.is_nan())
 }
 
-/// THE oracle: execute one operation of the real code on one operand tuple and compare it with the
-/// model.  Used by the enumeration, by the samples and by `--replay` alike.
-fn check_one(op: Op, a: &Opd, b: &Opd) -> Outcome {
+/// WHERE the two operands of a binary operation live when the real code is called.  f80 values are plain data and
+/// the property speaks about operand VALUES, so none of this may change an answer; every family that judged a call
+/// on two separate temporaries only left out the calls in which both operands are one object (`x == x`, `x != x`,
+/// `x.partial_cmp(&x)`, `x.min(x)`, `x + x`, `x -= x` …: possible exactly when the two operand values are the
+/// same) and the calls on neighbouring array elements.
+#[derive(Clone, Copy, Debug, PartialEq, Eq)]
+pub(crate) enum Place {
+    /// two separate local variables (every case)
+    Separate,
+    /// both operands are ONE local variable: relations get the same reference twice, by-value operations read the
+    /// same variable twice, the assigning forms are `x op= x` (cases whose two operands are the same operand)
+    SameObject,
+    /// the operands are the elements [0] and [1] of one `[f80; 2]` (adjacent in memory, a first)
+    Array,
+    /// the operands are the elements [1] and [0] of one `[f80; 2]` (adjacent in memory, b first)
+    ArrayReversed,
+    /// both operands are ONE element of a `[f80; 2]` whose other element holds a different value
+    SameElement,
+}
+
+pub(crate) const PLACES: [Place; 5] = [Place::Separate, Place::SameObject, Place::Array, Place::ArrayReversed, Place::SameElement];
+
+impl Place {
+    pub(crate) fn idx(self) -> usize {
+        PLACES.iter().position(|&p| p == self).unwrap()
+    }
+    pub(crate) fn name(self) -> &'static str {
+        match self {
+            Place::Separate => "separate",
+            Place::SameObject => "same_object",
+            Place::Array => "array_elements_0_1",
+            Place::ArrayReversed => "array_elements_1_0",
+            Place::SameElement => "same_array_element",
+        }
+    }
+    pub(crate) fn from_name(s: &str) -> Option<Place> {
+        PLACES.iter().copied().find(|p| p.name() == s)
+    }
+    /// needs the two operands to be the same operand
+    fn aliases(self) -> bool {
+        matches!(self, Place::SameObject | Place::SameElement)
+    }
+    fn describe(self) -> &'static str {
+        match self {
+            Place::Separate => "",
+            Place::SameObject => " [both operands are the SAME object: one local variable x, called as `x == x`, `x.partial_cmp(&x)`, `x + x`, `x.min(x)`, `x -= x` …]",
+            Place::Array => " [the operands are the adjacent elements v[0] (a) and v[1] (b) of one array]",
+            Place::ArrayReversed => " [the operands are the adjacent elements v[1] (a) and v[0] (b) of one array]",
+            Place::SameElement => " [both operands are the SAME element v[0] of an array: `v[0] == v[0]` …]",
+        }
+    }
+}
+
+/// What the real code handed back for one call — nothing of the model in it.
+#[derive(Clone, Copy, Debug, PartialEq, Eq)]
+pub(crate) enum Raw {
+    F80([u8; 10]),
+    Bool(bool),
+    Pc(Option<Ordering>),
+    EqAndPc(bool, Option<Ordering>),
+    /// (a == b, a != b)
+    EqNe(bool, bool),
+    F64(u64),
+}
+
+/// Execute ONE operation of the real code on one operand tuple (no model involved).
+#[inline(never)]
+pub(crate) fn execute(op: Op, a: &Opd, b: &Opd, place: Place) -> Raw {
+    if !op.binary() {
+        return match op {
+            Op::Neg => Raw::F80(bytes_of(-a.real())),
+            Op::Abs => Raw::F80(bytes_of(a.real().abs())),
+            Op::ToF64 => Raw::F64(f64::from(a.real()).to_bits()),
+            Op::FromF64 => {
+                let Opd::F64(bits) = *a else { panic!("from_f64 needs an f64 operand") };
+                Raw::F80(bytes_of(f80::from(f64::from_bits(bits))))
+            }
+            Op::Roundtrip => {
+                let Opd::F64(bits) = *a else { panic!("f64_roundtrip needs an f64 operand") };
+                let back: f64 = f80::from(f64::from_bits(bits)).into();
+                Raw::F64(back.to_bits())
+            }
+            _ => unreachable!(),
+        };
+    }
+    assert!(!place.aliases() || a == b, "both operands can only be one object when they are the same operand");
+    let (xa, xb) = (a.real(), b.real());
+    // the other element of the array of `SameElement` holds a different value: the negation of the bits
+    let other = f80_from_bytes(bytes_of(xa).map(|x| !x));
+    let v: [f80; 2] = match place {
+        Place::ArrayReversed => [xb, xa],
+        Place::SameElement => [xa, other],
+        _ => [xa, xb],
+    };
+    let (ra, rb): (&f80, &f80) = match place {
+        Place::Separate => (&xa, &xb),
+        Place::SameObject => (&xa, &xa),
+        Place::Array => (&v[0], &v[1]),
+        Place::ArrayReversed => (&v[1], &v[0]),
+        Place::SameElement => (&v[0], &v[0]),
+    };
+    // the assigning forms need `&mut`: the left operand is a variable / an array element that is updated in place
+    let assign = |f: fn(&mut f80, f80)| -> Raw {
+        match place {
+            Place::Separate => {
+                let mut c = xa;
+                f(&mut c, xb);
+                Raw::F80(bytes_of(c))
+            }
+            Place::SameObject => {
+                let mut c = xa;
+                let rhs = c; // `c op= c`
+                f(&mut c, rhs);
+                Raw::F80(bytes_of(c))
+            }
+            Place::Array | Place::ArrayReversed | Place::SameElement => {
+                let mut w = v;
+                let (l, r) = match place {
+                    Place::Array => (0, 1),
+                    Place::ArrayReversed => (1, 0),
+                    _ => (0, 0),
+                };
+                let rhs = w[r]; // `w[l] op= w[r]`
+                f(&mut w[l], rhs);
+                // the neighbour is not touched by the update
+                if bytes_of(w[1 - l]) != bytes_of(v[1 - l]) {
+                    return Raw::F80([0xEE; 10]);
+                }
+                Raw::F80(bytes_of(w[l]))
+            }
+        }
+    };
+    match op {
+        Op::Add => Raw::F80(bytes_of(*ra + *rb)),
+        Op::Sub => Raw::F80(bytes_of(*ra - *rb)),
+        Op::Mul => Raw::F80(bytes_of(*ra * *rb)),
+        Op::Div => Raw::F80(bytes_of(*ra / *rb)),
+        Op::AddAssign => assign(|c, r| *c += r),
+        Op::SubAssign => assign(|c, r| *c -= r),
+        Op::MulAssign => assign(|c, r| *c *= r),
+        Op::DivAssign => assign(|c, r| *c /= r),
+        Op::Min => Raw::F80(bytes_of(ra.min(*rb))),
+        Op::Max => Raw::F80(bytes_of(ra.max(*rb))),
+        Op::Lt => Raw::Bool(*ra < *rb),
+        Op::Le => Raw::Bool(*ra <= *rb),
+        Op::Gt => Raw::Bool(*ra > *rb),
+        Op::Ge => Raw::Bool(*ra >= *rb),
+        // `!=` is the provided method `ne`, which a type may override: both are called
+        Op::Eq => Raw::EqNe(*ra == *rb, *ra != *rb),
+        Op::PartialCmp => Raw::Pc(ra.partial_cmp(rb)),
+        Op::EqVsPartialCmp => Raw::EqAndPc(*ra == *rb, ra.partial_cmp(rb)),
+        _ => unreachable!(),
+    }
+}
+
+/// Ten bytes the x87 does not support as a value (exponent field non-zero, integer bit clear: unnormals,
+/// pseudo-infinities, pseudo-NaNs).  No x87 instruction produces them and loading one is an invalid operation; the
+/// decoder of the model would read them as the number / infinity they resemble.
+fn unsupported_encoding(b: &[u8; 10]) -> bool {
+    u16::from_le_bytes([b[8], b[9]]) & 0x7fff != 0 && b[7] & 0x80 == 0
+}
+
+/// THE oracle: what the real code returned for one operation on one operand tuple against the model.
+fn judge(op: Op, a: &Opd, b: &Opd, raw: Raw) -> Outcome {
+    let mut out = judge_value(op, a, b, raw);
+    if let Raw::F80(bytes) = raw {
+        // a result that passes by the value it resembles must also be a value
+        if out.verdict == Verdict::Pass && unsupported_encoding(&bytes) {
+            out.verdict = Verdict::Fail;
+            out.observed = Val::Text("ten bytes that are not an encoding the x87 supports (exponent field non-zero, integer bit clear)");
+        }
+    }
+    if let (Op::ToF64, Opd::Raw(bytes)) = (op, a) {
+        // nothing is demanded about the conversion of something that is not an f80 value
+        if unsupported_encoding(bytes) {
+            out.verdict = Verdict::Skip;
+        }
+    }
+    out
+}
+
+fn judge_value(op: Op, a: &Opd, b: &Opd, raw: Raw) -> Outcome {
     let ma = a.model();
     let mb = b.model();
     let mut info = Info::default();
     let mut out = Outcome { fam: op.idx() * 3, verdict: Verdict::Pass, expected: Val::Text(""), observed: Val::Text(""), info, mres: None, result: None, rel: None };
     let verdict = |ok: bool| if ok { Verdict::Pass } else { Verdict::Fail };
+    let f80_of = |raw: Raw| match raw {
+        Raw::F80(b) => b,
+        other => panic!("engine: {op:?} returned {other:?}"),
+    };
     match op {
         Op::Add | Op::Sub | Op::Mul | Op::Div | Op::AddAssign | Op::SubAssign | Op::MulAssign | Op::DivAssign => {
-            let (xa, xb) = (a.real(), b.real());
-            let got = match op {
-                Op::Add => xa + xb,
-                Op::Sub => xa - xb,
-                Op::Mul => xa * xb,
-                Op::Div => xa / xb,
-                Op::AddAssign => {
-                    let mut c = xa;
-                    c += xb;
-                    c
-                }
-                Op::SubAssign => {
-                    let mut c = xa;
-                    c -= xb;
-                    c
-                }
-                Op::MulAssign => {
-                    let mut c = xa;
-                    c *= xb;
-                    c
-                }
-                Op::DivAssign => {
-                    let mut c = xa;
-                    c /= xb;
-                    c
-                }
-                _ => unreachable!(),
-            };
-            let gb = bytes_of(got);
+            let gb = f80_of(raw);
             let d = soft::decode80(&gb);
             let want = model_arith(op.arith_base().unwrap(), ma, mb, &mut info);
             out.info = info;
             out.mres = Some(want);
             out.result = Some(gb);
             out.expected = Val::F80(want);
-            out.observed = Val::F80(d);
+            out.observed = if gb == [0xEE; 10] { Val::Text("the update of one array element changed its neighbour") } else { Val::F80(d) };
             // the statement speaks of "the exact result rounded to a 64-bit significand": results that leave
             // the exponent range of the format (overflow, gradual underflow) are outside it
-            out.verdict = if info.overflow || info.denormal { Verdict::Skip } else { verdict(soft::same(d, want)) };
+            out.verdict = if gb == [0xEE; 10] {
+                Verdict::Fail
+            } else if info.overflow || info.denormal {
+                Verdict::Skip
+            } else {
+                verdict(soft::same(d, want))
+            };
         }
         Op::Min | Op::Max => {
-            let (xa, xb) = (a.real(), b.real());
-            let got = if op == Op::Min { xa.min(xb) } else { xa.max(xb) };
-            let d = soft::decode80(&bytes_of(got));
+            let d = soft::decode80(&f80_of(raw));
             let c = soft::cmp(ma, mb);
             out.rel = Some(c);
             out.observed = Val::F80(d);
@@ -412,7 +572,6 @@ fn check_one(op: Op, a: &Opd, b: &Opd) -> Outcome {
             }
         }
         Op::Lt | Op::Le | Op::Gt | Op::Ge | Op::Eq | Op::PartialCmp | Op::EqVsPartialCmp => {
-            let (xa, xb) = (a.real(), b.real());
             let c = soft::cmp(ma, mb);
             out.rel = Some(c);
             let class = if c.is_none() {
@@ -425,44 +584,51 @@ fn check_one(op: Op, a: &Opd, b: &Opd) -> Outcome {
             if op != Op::EqVsPartialCmp {
                 out.fam = op.idx() * 3 + class;
             }
-            match op {
-                Op::PartialCmp => {
-                    let got = xa.partial_cmp(&xb);
+            match (op, raw) {
+                (Op::PartialCmp, Raw::Pc(got)) => {
                     out.expected = Val::Pc(c);
                     out.observed = Val::Pc(got);
                     out.verdict = verdict(got == c);
                 }
-                Op::EqVsPartialCmp => {
-                    let e = xa == xb;
-                    let p = xa.partial_cmp(&xb);
+                (Op::EqVsPartialCmp, Raw::EqAndPc(e, p)) => {
                     out.expected = Val::Text("(a == b) exactly when a.partial_cmp(b) == Some(Equal)");
                     out.observed = Val::EqAndPc(e, p);
                     out.verdict = verdict(e == (p == Some(Ordering::Equal)));
                 }
-                _ => {
-                    let (got, want) = match op {
-                        Op::Lt => (xa < xb, c == Some(Ordering::Less)),
-                        Op::Le => (xa <= xb, matches!(c, Some(Ordering::Less) | Some(Ordering::Equal))),
-                        Op::Gt => (xa > xb, c == Some(Ordering::Greater)),
-                        Op::Ge => (xa >= xb, matches!(c, Some(Ordering::Greater) | Some(Ordering::Equal))),
-                        Op::Eq => (xa == xb, c == Some(Ordering::Equal)),
+                (Op::Eq, Raw::EqNe(e, n)) => {
+                    let want = c == Some(Ordering::Equal);
+                    out.expected = Val::Bool(want);
+                    out.observed = match (e, n) {
+                        (true, true) => Val::Text("(a == b) = true, but (a != b) = true as well"),
+                        (false, false) => Val::Text("(a == b) = false, but (a != b) = false as well"),
+                        _ => Val::Bool(e),
+                    };
+                    out.verdict = verdict(e == want && n != want);
+                }
+                (_, Raw::Bool(got)) => {
+                    let want = match op {
+                        Op::Lt => c == Some(Ordering::Less),
+                        Op::Le => matches!(c, Some(Ordering::Less) | Some(Ordering::Equal)),
+                        Op::Gt => c == Some(Ordering::Greater),
+                        Op::Ge => matches!(c, Some(Ordering::Greater) | Some(Ordering::Equal)),
                         _ => unreachable!(),
                     };
                     out.expected = Val::Bool(want);
                     out.observed = Val::Bool(got);
                     out.verdict = verdict(got == want);
                 }
+                (_, other) => panic!("engine: {op:?} returned {other:?}"),
             }
         }
         Op::Neg => {
-            let d = soft::decode80(&bytes_of(-a.real()));
+            let d = soft::decode80(&f80_of(raw));
             let want = soft::neg(ma);
             out.expected = Val::F80(want);
             out.observed = Val::F80(d);
             out.verdict = verdict(soft::same(d, want));
         }
         Op::Abs => {
-            let d = soft::decode80(&bytes_of(a.real().abs()));
+            let d = soft::decode80(&f80_of(raw));
             let want = soft::abs(ma);
             out.observed = Val::F80(d);
             if soft::is_nan(ma) {
@@ -475,7 +641,8 @@ fn check_one(op: Op, a: &Opd, b: &Opd) -> Outcome {
             }
         }
         Op::ToF64 => {
-            let got: f64 = a.real().into();
+            let Raw::F64(got) = raw else { panic!("engine: to_f64 returned {raw:?}") };
+            let got = f64::from_bits(got);
             let want = soft::to_f64(ma, &mut info);
             out.info = info;
             out.expected = Val::F64(want.to_bits());
@@ -483,16 +650,15 @@ fn check_one(op: Op, a: &Opd, b: &Opd) -> Outcome {
             out.verdict = verdict(same_f64(got, want));
         }
         Op::FromF64 => {
-            let Opd::F64(bits) = *a else { panic!("from_f64 needs an f64 operand") };
-            let d = soft::decode80(&bytes_of(f80::from(f64::from_bits(bits))));
+            let d = soft::decode80(&f80_of(raw));
             out.expected = Val::F80(ma);
             out.observed = Val::F80(d);
             out.verdict = verdict(soft::same(d, ma));
         }
         Op::Roundtrip => {
             let Opd::F64(bits) = *a else { panic!("f64_roundtrip needs an f64 operand") };
-            let f = f64::from_bits(bits);
-            let back: f64 = f80::from(f).into();
+            let Raw::F64(back) = raw else { panic!("engine: f64_roundtrip returned {raw:?}") };
+            let (f, back) = (f64::from_bits(bits), f64::from_bits(back));
             out.expected = Val::F64(bits);
             out.observed = Val::F64(back.to_bits());
             out.verdict = verdict(same_f64(back, f));
@@ -501,9 +667,13 @@ fn check_one(op: Op, a: &Opd, b: &Opd) -> Outcome {
     out
 }
 
+fn check_one(op: Op, a: &Opd, b: &Opd, place: Place) -> Outcome {
+    judge(op, a, b, execute(op, a, b, place))
+}
+
 /// check_one with a panic of the code under test turned into a failure of the family `panic`.
-fn check_caught(op: Op, a: &Opd, b: &Opd) -> (Outcome, Option<String>) {
-    match catch(|| check_one(op, a, b)) {
+fn check_caught(op: Op, a: &Opd, b: &Opd, place: Place) -> (Outcome, Option<String>) {
+    match catch(|| check_one(op, a, b, place)) {
         Ok(o) => (o, None),
         Err(msg) => (
             Outcome { fam: FAM_PANIC, verdict: Verdict::Fail, expected: Val::Text("no panic"), observed: Val::Text("panic"), info: Info::default(), mres: None, result: None, rel: None },
@@ -512,93 +682,230 @@ fn check_caught(op: Op, a: &Opd, b: &Opd) -> (Outcome, Option<String>) {
     }
 }
 
-fn case_text(op: Op, a: &Opd, b: &Opd) -> String {
-    if op.binary() {
+fn case_text(op: Op, a: &Opd, b: &Opd, place: Place) -> String {
+    if op.binary() && place != Place::Separate {
+        format!("{}({},{})@{}", op.name(), a.sig(), b.sig(), place.name())
+    } else if op.binary() {
         format!("{}({},{})", op.name(), a.sig(), b.sig())
     } else {
         format!("{}({})", op.name(), a.sig())
     }
 }
 
-fn case_json(fam: usize, op: Op, a: &Opd, b: &Opd) -> Value {
+fn case_json(fam: usize, op: Op, a: &Opd, b: &Opd, place: Place) -> Value {
     if op.binary() {
-        json!({"family": fam_name(fam), "op": op.name(), "a": a.to_json(), "b": b.to_json()})
+        json!({"family": fam_name(fam), "op": op.name(), "a": a.to_json(), "b": b.to_json(), "operands_live_in": place.name()})
     } else {
         json!({"family": fam_name(fam), "op": op.name(), "a": a.to_json()})
     }
 }
 
-fn summary(op: Op, a: &Opd, b: &Opd, o: &Outcome, panic_msg: &Option<String>) -> String {
-    let operands = if op.binary() { format!("a = {}; b = {}", a.describe(), b.describe()) } else { format!("a = {}", a.describe()) };
+fn summary(op: Op, a: &Opd, b: &Opd, place: Place, o: &Outcome, panic_msg: &Option<String>) -> String {
+    let operands = if op.binary() { format!("a = {}; b = {}{}", a.describe(), b.describe(), place.describe()) } else { format!("a = {}", a.describe()) };
     match panic_msg {
         Some(m) => format!("[{}] {} panicked: {m}; {operands}", fam_name(o.fam), op.name()),
         None => format!("[{}] {}: expected {}, observed {}; {operands}", fam_name(o.fam), op.name(), show_val(&o.expected), show_val(&o.observed)),
     }
 }
 
+/// What every thread that executes code under test outside the rayon pool does first: start from the
+/// architectural x87 state, then the library's f80_init().
+/// A new thread inherits the x87 control word of the thread that spawned it, and that one has already run the
+/// library's f80_init(): start from the architectural default (fninit: 64-bit precision, round to nearest,
+/// empty register stack), as a program's main thread does.
+pub(crate) fn fresh_x87_thread_init() {
+    unsafe {
+        core::arch::asm!("fninit", options(nomem, nostack));
+    }
+    if !control_word_ok(control_word()) {
+        eprintln!("replay: x87 control word after fninit is not 64-bit precision / round-to-nearest");
+        std::process::exit(2);
+    }
+    rlib_f80::f80_init();
+}
+
 /// Run `f` on a fresh thread that starts from the architectural x87 state, after the library's f80_init().
 /// f80 operations must be pure, but a defect that leaks x87 register-stack slots (or any other per-thread
 /// state) only shows after some calls on one thread; a fresh thread starts from a clean FPU state, so the two
 /// confirming runs see the same thing.
-fn on_fresh_thread(f: impl FnOnce() -> Result<(), String> + Send + 'static) -> Result<(), String> {
+fn on_fresh_thread<R: Send + 'static>(f: impl FnOnce() -> R + Send + 'static) -> Result<R, String> {
     std::thread::spawn(move || {
-        // a new thread inherits the x87 control word of the thread that spawned it, and that one has
-        // already run the library's f80_init(): start from the architectural default (fninit: 64-bit
-        // precision, round to nearest, empty register stack), as a program's main thread does
-        unsafe {
-            core::arch::asm!("fninit", options(nomem, nostack));
-        }
-        if !control_word_ok(control_word()) {
-            eprintln!("replay: x87 control word after fninit is not 64-bit precision / round-to-nearest");
-            std::process::exit(2);
-        }
-        rlib_f80::f80_init();
+        fresh_x87_thread_init();
         f()
     })
     .join()
-    .unwrap_or_else(|_| Err("replay thread panicked".to_string()))
+    .map_err(|_| "replay thread panicked".to_string())
+}
+
+/// One recorded case: a single operation or a dependent sequence.
+#[derive(Clone, Copy)]
+enum Recorded {
+    Single { op: Op, a: Opd, b: Opd, place: Place },
+    Sequence(seq::Case),
+}
+
+impl Recorded {
+    fn from_json(v: &Value) -> Result<Recorded, String> {
+        if v["kind"] == "dependent_sequence" {
+            return Ok(Recorded::Sequence(seq::Case::from_json(v)?));
+        }
+        let op = v["op"].as_str().and_then(Op::from_name).ok_or_else(|| format!("replay: unknown op in {v}"))?;
+        let a = Opd::from_json(&v["a"])?;
+        let b = if op.binary() { Opd::from_json(&v["b"])? } else { a };
+        let place = match v["operands_live_in"].as_str() {
+            None => Place::Separate,
+            Some(s) => Place::from_name(s).ok_or_else(|| format!("replay: unknown placement of the operands {s}"))?,
+        };
+        if place.aliases() && a != b {
+            return Err("replay: both operands can only be one object when they are the same operand".into());
+        }
+        Ok(Recorded::Single { op, a, b, place })
+    }
+
+    /// The plain re-execution on the CURRENT thread: the recorded call 16 times, with every other operation on
+    /// the same operands between the repetitions.  Err(summary) if something fails.
+    fn alone(&self) -> Result<(), String> {
+        match *self {
+            Recorded::Sequence(case) => {
+                // the loop is the same #[inline(never)] function the enumeration called: same machine code
+                for rep in 0..16 {
+                    let o = seq::check_case(&case);
+                    if o.verdict == seq::Verdict::Fail {
+                        return Err(if rep == 0 { o.summary } else { format!("{} [on repetition {rep} on one fresh thread: the result depends on earlier f80 calls]", o.summary) });
+                    }
+                }
+                Ok(())
+            }
+            Recorded::Single { op, a, b, place } => {
+                for rep in 0..16 {
+                    let (o, pm) = check_caught(op, &a, &b, place);
+                    if let Verdict::Fail = o.verdict {
+                        let s = summary(op, &a, &b, place, &o, &pm);
+                        return Err(if rep == 0 { s } else { format!("{s} [on repetition {rep} on one fresh thread, after the other f80 operations were called on the same operands: the result depends on earlier f80 calls]") });
+                    }
+                    // interference: every other operation on the same operands (an f80 -> f64 conversion, a
+                    // comparison …); f80 has no state, so none of this may change what the recorded call returns
+                    for other in ALL_OPS {
+                        if other == op || matches!(other, Op::FromF64 | Op::Roundtrip) && !matches!(a, Opd::F64(_)) {
+                            continue;
+                        }
+                        let bb = if other.binary() { b } else { a };
+                        let (o2, pm2) = check_caught(other, &a, &bb, place);
+                        if let Verdict::Fail = o2.verdict {
+                            return Err(format!("{} [called on one fresh thread after {} round(s) of all f80 operations on the same operands: the result depends on earlier f80 calls]", summary(other, &a, &bb, place, &o2, &pm2), rep + 1));
+                        }
+                    }
+                }
+                Ok(())
+            }
+        }
+    }
+
+    fn call_text(&self) -> String {
+        match self {
+            Recorded::Single { op, a, b, place } => case_text(*op, a, b, *place),
+            Recorded::Sequence(c) => c.signature(),
+        }
+    }
+
+    fn operands_text(&self) -> String {
+        match self {
+            Recorded::Single { op, a, b, place } if op.binary() => format!("a = {}; b = {}{}", a.describe(), b.describe(), place.describe()),
+            Recorded::Single { a, .. } => format!("a = {}", a.describe()),
+            Recorded::Sequence(c) => c.describe(),
+        }
+    }
+
+    /// what the real code returns, as text (for a summary; never compared)
+    fn show(r: &Result<Observed, String>) -> String {
+        match r {
+            Ok(Observed::Single(Raw::F80(b))) => soft::show(soft::decode80(b)),
+            Ok(Observed::Single(Raw::F64(b))) => format!("f64 0x{b:016x} ({:e})", f64::from_bits(*b)),
+            Ok(Observed::Single(other)) => format!("{other:?}"),
+            Ok(Observed::Sequence(r, n, x)) => format!("result codes {r:?}, count {n}, x ends as {}", soft::show(soft::decode80(x))),
+            Err(p) => format!("a panic: {p}"),
+        }
+    }
+
+    /// the real code only
+    fn observe(&self) -> Result<Observed, String> {
+        match self {
+            Recorded::Single { op, a, b, place } => catch(|| Observed::Single(execute(*op, a, b, *place))),
+            Recorded::Sequence(c) => seq::run_real(c).map(|(r, n, x)| Observed::Sequence(r, n, x)),
+        }
+    }
+}
+
+#[derive(Clone, Copy, PartialEq, Eq, Debug)]
+enum Observed {
+    Single(Raw),
+    Sequence([u8; seq::K], u32, [u8; 10]),
+}
+
+/// What re-executing a case under interference found.
+enum UnderInterference {
+    /// it already fails when the thread runs alone: a plain violation, reported as such
+    FailsAlone(String),
+    /// alone it is right (and the model agrees), with other threads computing it came out different
+    Depends { text: String, example: String },
+    Independent { reps: u64 },
+    /// the interfering threads did not get to run at the same time
+    NoInterference,
+}
+
+/// The recorded case on the CURRENT (fresh) thread: alone first, then repeated under the crowd (started here
+/// unless one is passed in, in which case `alone_value` must have been observed before it was started).
+fn under_interference(case: &Recorded, crowd: Option<&interfere::Crowd>, alone_value: Option<Result<Observed, String>>) -> UnderInterference {
+    let alone_value = match alone_value {
+        Some(v) => v,
+        None => {
+            if let Err(s) = case.alone() {
+                return UnderInterference::FailsAlone(s);
+            }
+            case.observe()
+        }
+    };
+    let own;
+    let crowd = match crowd {
+        Some(c) => c,
+        None => {
+            own = interfere::Crowd::start();
+            &own
+        }
+    };
+    let n = crowd.threads();
+    match crowd.judge(&alone_value, || case.observe()) {
+        interfere::Judged::Same { reps } => UnderInterference::Independent { reps },
+        interfere::Judged::NoInterference => UnderInterference::NoInterference,
+        interfere::Judged::Differs { rep, got } => UnderInterference::Depends {
+            // the text of the verdict carries nothing that varies between two runs (which repetition, which foreign value)
+            text: format!(
+                "[interference] {}: on a thread that runs alone the call returns {} (16 of 16 calls, and that is what the model demands), but repeated up to {} times while {n} other thread(s) execute f80 operations on OTHER operands, some repetition returns something else: the result depends on what other threads are computing at the same time; {}",
+                case.call_text(),
+                Recorded::show(&alone_value),
+                interfere::REPS,
+                case.operands_text()
+            ),
+            example: format!("repetition {rep} returned {}", Recorded::show(&got)),
+        },
+    }
 }
 
 /// Plain re-execution of one recorded case.
 fn confirm(v: &Value) -> Result<(), String> {
-    if v["kind"] == "dependent_sequence" {
-        let case = seq::Case::from_json(v)?;
-        // the loop is the same #[inline(never)] function the enumeration called: same machine code
-        return on_fresh_thread(move || {
-            for rep in 0..16 {
-                let o = seq::check_case(&case);
-                if o.verdict == seq::Verdict::Fail {
-                    return Err(if rep == 0 { o.summary } else { format!("{} [on repetition {rep} on one fresh thread: the result depends on earlier f80 calls]", o.summary) });
-                }
+    let case = Recorded::from_json(v)?;
+    if v["interference"] == true {
+        return on_fresh_thread(move || match under_interference(&case, None, None) {
+            UnderInterference::FailsAlone(s) => Err(s),
+            UnderInterference::Depends { text, .. } => Err(text),
+            UnderInterference::Independent { .. } => Ok(()),
+            UnderInterference::NoInterference => {
+                eprintln!("replay: the interfering threads did not run while the recorded call was repeated (overloaded machine?): no verdict");
+                std::process::exit(2)
             }
-            Ok(())
-        });
+        })?;
     }
-    let op = v["op"].as_str().and_then(Op::from_name).ok_or_else(|| format!("replay: unknown op in {v}"))?;
-    let a = Opd::from_json(&v["a"])?;
-    let b = if op.binary() { Opd::from_json(&v["b"])? } else { a };
-    on_fresh_thread(move || {
-        for rep in 0..16 {
-            let (o, pm) = check_caught(op, &a, &b);
-            if let Verdict::Fail = o.verdict {
-                let s = summary(op, &a, &b, &o, &pm);
-                return Err(if rep == 0 { s } else { format!("{s} [on repetition {rep} on one fresh thread, after the other f80 operations were called on the same operands: the result depends on earlier f80 calls]") });
-            }
-            // interference: every other operation on the same operands (an f80 -> f64 conversion, a
-            // comparison …); f80 has no state, so none of this may change what the recorded call returns
-            for other in ALL_OPS {
-                if other == op || matches!(other, Op::FromF64 | Op::Roundtrip) && !matches!(a, Opd::F64(_)) {
-                    continue;
-                }
-                let bb = if other.binary() { b } else { a };
-                let (o2, pm2) = check_caught(other, &a, &bb);
-                if let Verdict::Fail = o2.verdict {
-                    return Err(format!("{} [called on one fresh thread after {} round(s) of all f80 operations on the same operands: the result depends on earlier f80 calls]", summary(other, &a, &bb, &o2, &pm2), rep + 1));
-                }
-            }
-        }
-        Ok(())
-    })
+    on_fresh_thread(move || case.alone())?
 }
 
 // ---------------------------------------------------------------------------------------------------
@@ -659,9 +966,10 @@ fn boundary_set() -> Vec<u64> {
 // enumeration
 // ---------------------------------------------------------------------------------------------------
 
-/// Position of a case in the enumeration: level, then the larger operand index ("shell"), then the smaller,
-/// then the orientation, then the operation.  The first failing case of a family is the minimum.
-type Rank = (u8, u32, u32, u8, u8);
+/// Position of a case in the enumeration: level, where the operands live (separate temporaries first), then the
+/// larger operand index ("shell"), then the smaller, then the orientation, then the operation.  The first failing
+/// case of a family is the minimum.
+type Rank = (u8, u8, u32, u32, u8, u8);
 
 #[derive(Clone, Debug)]
 struct FailRec {
@@ -669,10 +977,11 @@ struct FailRec {
     op: Op,
     a: Opd,
     b: Opd,
+    place: Place,
     summary: String,
 }
 
-const C_NAMES: [&str; 29] = [
+const C_NAMES: [&str; 34] = [
     "arith_checked",
     "arith_inexact_rounding_decided",
     "arith_exact_ties_to_even",
@@ -702,6 +1011,11 @@ const C_NAMES: [&str; 29] = [
     "skipped_minmax_nan_operand",
     "pairs",
     "arith_results_passing_but_not_canonical_bytes",
+    "cases_operands_in_separate_variables",
+    "cases_both_operands_the_same_object",
+    "cases_operands_adjacent_array_elements_0_1",
+    "cases_operands_adjacent_array_elements_1_0",
+    "cases_both_operands_the_same_array_element",
 ];
 const C_ARITH: usize = 0;
 const C_INEXACT: usize = 1;
@@ -732,6 +1046,8 @@ const C_SKIP_DOMAIN: usize = 25;
 const C_SKIP_MINMAX: usize = 26;
 const C_PAIRS: usize = 27;
 const C_NONCANON: usize = 28;
+/// + Place::idx()
+const C_PLACE: usize = 29;
 
 #[derive(Clone)]
 struct Acc {
@@ -763,7 +1079,7 @@ impl Acc {
             self.c[i] += o.c[i];
         }
     }
-    fn record(&mut self, rank: Rank, op: Op, a: &Opd, b: &Opd, o: &Outcome, pm: &Option<String>) {
+    fn record(&mut self, rank: Rank, op: Op, a: &Opd, b: &Opd, place: Place, o: &Outcome, pm: &Option<String>) {
         match o.verdict {
             Verdict::Pass => self.evals[o.fam] += 1,
             Verdict::Skip => self.skips[o.fam] += 1,
@@ -771,7 +1087,7 @@ impl Acc {
                 self.evals[o.fam] += 1;
                 self.fails[o.fam] += 1;
                 if self.first[o.fam].as_ref().map_or(true, |cur| rank < cur.rank) {
-                    self.first[o.fam] = Some(FailRec { rank, op, a: *a, b: *b, summary: summary(op, a, b, o, pm) });
+                    self.first[o.fam] = Some(FailRec { rank, op, a: *a, b: *b, place, summary: summary(op, a, b, place, o, pm) });
                 }
             }
         }
@@ -805,7 +1121,9 @@ struct LevelOut {
 /// All unary operations on every operand and all binary operations on every ordered pair of `opds`.
 /// `dup_of_lower_level[i]`: operand i also occurs at a lower level, so a pair of two such operands repeats an
 /// earlier case and is not counted as distinct.
-fn run_level(level: u8, opds: &[Opd], dup_of_lower_level: &[bool], collect: bool) -> LevelOut {
+/// `arrays`: every ordered pair is also judged with the operands living in adjacent array elements (both
+/// orders); the pairs (x, x) are judged with both operands being ONE object at every level.
+fn run_level(level: u8, opds: &[Opd], dup_of_lower_level: &[bool], collect: bool, arrays: bool) -> LevelOut {
     let n = opds.len();
     let models: Vec<X> = opds.iter().map(|o| o.model()).collect();
     let parts: Vec<(Acc, Vec<[u8; 10]>)> = (0..n)
@@ -820,9 +1138,9 @@ fn run_level(level: u8, opds: &[Opd], dup_of_lower_level: &[bool], collect: bool
                 if matches!(op, Op::FromF64 | Op::Roundtrip) && !matches!(a, Opd::F64(_)) {
                     continue;
                 }
-                let rank: Rank = (level, i as u32, i as u32, 2, k as u8);
-                let (o, pm) = check_caught(op, &a, &a);
-                acc.record(rank, op, &a, &a, &o, &pm);
+                let rank: Rank = (level, 0, i as u32, i as u32, 2, k as u8);
+                let (o, pm) = check_caught(op, &a, &a, Place::Separate);
+                acc.record(rank, op, &a, &a, Place::Separate, &o, &pm);
                 if op == Op::ToF64 && o.fam != FAM_PANIC {
                     count_to_f64(&mut acc, &o);
                 }
@@ -835,10 +1153,24 @@ fn run_level(level: u8, opds: &[Opd], dup_of_lower_level: &[bool], collect: bool
                 let (hi, lo) = (i.max(j) as u32, i.min(j) as u32);
                 let orient = (i > j) as u8;
                 let repeats_lower_level = dup_of_lower_level[i] && dup_of_lower_level[j];
+                // the other places the operands can live in: the verdicts only (the coverage counters below
+                // describe the operand VALUES and are taken once, from the case on separate temporaries)
+                for place in PLACES {
+                    if place == Place::Separate || place.aliases() && i != j || !place.aliases() && !arrays {
+                        continue;
+                    }
+                    for (k, &op) in BIN_OPS.iter().enumerate() {
+                        let rank: Rank = (level, place.idx() as u8, hi, lo, orient, k as u8);
+                        let (o, pm) = check_caught(op, &a, &b, place);
+                        acc.record(rank, op, &a, &b, place, &o, &pm);
+                        acc.c[C_PLACE + place.idx()] += 1;
+                    }
+                }
                 for (k, &op) in BIN_OPS.iter().enumerate() {
-                    let rank: Rank = (level, hi, lo, orient, k as u8);
-                    let (o, pm) = check_caught(op, &a, &b);
-                    acc.record(rank, op, &a, &b, &o, &pm);
+                    let rank: Rank = (level, 0, hi, lo, orient, k as u8);
+                    let (o, pm) = check_caught(op, &a, &b, Place::Separate);
+                    acc.record(rank, op, &a, &b, Place::Separate, &o, &pm);
+                    acc.c[C_PLACE] += 1;
                     if o.fam == FAM_PANIC {
                         continue;
                     }
@@ -883,13 +1215,17 @@ fn run_level(level: u8, opds: &[Opd], dup_of_lower_level: &[bool], collect: bool
                                 results.push(encode80(want));
                             }
                         }
-                        // every result is also converted to f64 and compared with the model's 53-bit rounding
-                        let r = Opd::Raw(o.result.unwrap());
-                        let rank: Rank = (level, hi, lo, orient, 100 + k as u8);
-                        let (o2, pm2) = check_caught(Op::ToF64, &r, &r);
-                        acc.record(rank, Op::ToF64, &r, &r, &o2, &pm2);
-                        if o2.fam != FAM_PANIC {
-                            count_to_f64(&mut acc, &o2);
+                        // every result is also converted to f64 and compared with the model's 53-bit rounding (not a
+                        // result that is already reported as wrong: its ten bytes need not even be an encoding the
+                        // x87 supports, and the property speaks about f80 values)
+                        if o.verdict != Verdict::Fail && !unsupported_encoding(&o.result.unwrap()) {
+                            let r = Opd::Raw(o.result.unwrap());
+                            let rank: Rank = (level, 0, hi, lo, orient, 100 + k as u8);
+                            let (o2, pm2) = check_caught(Op::ToF64, &r, &r, Place::Separate);
+                            acc.record(rank, Op::ToF64, &r, &r, Place::Separate, &o2, &pm2);
+                            if o2.fam != FAM_PANIC {
+                                count_to_f64(&mut acc, &o2);
+                            }
                         }
                     } else if op == Op::PartialCmp {
                         match o.rel.unwrap() {
@@ -980,6 +1316,99 @@ fn select_subset(results: &[[u8; 10]], n: usize) -> (Vec<[u8; 10]>, usize) {
     (chosen.into_iter().map(|i| distinct[i]).collect(), n_distinct)
 }
 
+impl Recorded {
+    /// the family a dependence on other threads is reported under
+    fn interference_family(&self) -> String {
+        match self {
+            Recorded::Single { op, .. } => format!("interference_{}", op.name()),
+            Recorded::Sequence(c) => format!("interference_{}", c.rel.family()),
+        }
+    }
+
+    /// the single operations a case consists of, as interference families: a case that does not reproduce alone is
+    /// explained when one of them is known to depend on the other threads
+    fn explained_by(&self) -> Vec<String> {
+        match self {
+            Recorded::Single { .. } => vec![self.interference_family()],
+            Recorded::Sequence(c) => vec![format!("interference_{}", c.op.name()), format!("interference_{}", c.rel.name())],
+        }
+    }
+
+    fn interference_replay(&self) -> Value {
+        let mut v = match self {
+            Recorded::Single { op, a, b, place } => case_json(0, *op, a, b, *place),
+            Recorded::Sequence(c) => c.to_json(),
+        };
+        v["family"] = json!(self.interference_family());
+        v["interference"] = json!(true);
+        v
+    }
+
+    fn interference_violation(&self, text: &str, example: &str) -> Violation {
+        Violation::new(format!("{}:{}", self.interference_family(), self.call_text()), format!("{text} (in this run: {example})"), self.interference_replay())
+    }
+}
+
+struct InterferencePass {
+    threads: usize,
+    cases: u64,
+    /// cases judged per family, in the order of the sample
+    cases_per_family: Vec<(String, u64)>,
+    cases_not_judged_because_they_fail_alone: u64,
+    repetitions: u64,
+    calls_of_the_interfering_threads: u64,
+    /// (family, violation): the first case of every operation whose result depends on the other threads
+    findings: Vec<(String, Violation)>,
+    /// a judged loop during which the interfering threads did not run
+    starved: bool,
+}
+
+/// The default interference pass: every operation on a few operand pairs, each call repeated `interfere::REPS`
+/// times on one fresh thread while the crowd computes on other operands.  What each call returns alone is
+/// observed (and judged against the model) BEFORE the crowd is started.
+fn interference_pass(sample_pairs: &[(Opd, Opd)]) -> InterferencePass {
+    let mut sample: Vec<Recorded> = vec![];
+    for op in ALL_OPS {
+        for &(a, b) in sample_pairs {
+            sample.push(Recorded::Single { op, a, b: if op.binary() { b } else { a }, place: Place::Separate });
+        }
+    }
+    let r = on_fresh_thread(move || {
+        let mut out = InterferencePass { threads: 0, cases: 0, cases_per_family: vec![], cases_not_judged_because_they_fail_alone: 0, repetitions: 0, calls_of_the_interfering_threads: 0, findings: vec![], starved: false };
+        let alone: Vec<Option<Result<Observed, String>>> = sample.iter().map(|c| c.alone().is_ok().then(|| c.observe())).collect();
+        let crowd = interfere::Crowd::start();
+        out.threads = crowd.threads();
+        for (case, alone) in sample.iter().zip(alone) {
+            let fam = case.interference_family();
+            if out.findings.iter().any(|(f, _)| *f == fam) {
+                continue; // the first case of an operation is enough
+            }
+            let Some(alone) = alone else {
+                out.cases_not_judged_because_they_fail_alone += 1; // the enumeration reports it
+                continue;
+            };
+            out.cases += 1;
+            match out.cases_per_family.iter_mut().find(|(f, _)| *f == fam) {
+                Some((_, n)) => *n += 1,
+                None => out.cases_per_family.push((fam.clone(), 1)),
+            }
+            match under_interference(case, Some(&crowd), Some(alone)) {
+                UnderInterference::Independent { reps } => out.repetitions += reps,
+                UnderInterference::Depends { text, example } => out.findings.push((fam, case.interference_violation(&text, &example))),
+                UnderInterference::NoInterference => out.starved = true,
+                UnderInterference::FailsAlone(_) => unreachable!(),
+            }
+        }
+        out.calls_of_the_interfering_threads = crowd.calls();
+        drop(crowd);
+        out
+    });
+    r.unwrap_or_else(|_| {
+        println!("MACHINERY-FAILURE engine=f80 the thread of the interference pass panicked outside the code under test");
+        std::process::exit(2)
+    })
+}
+
 pub fn main() {
     let args = Args::parse();
     quiet_panics();
@@ -1009,7 +1438,7 @@ pub fn main() {
     // ---- level 1: B x B
     let b: Vec<u64> = boundary_set();
     let bo: Vec<Opd> = b.iter().map(|&x| Opd::F64(x)).collect();
-    let l1 = run_level(1, &bo, &vec![false; bo.len()], true);
+    let l1 = run_level(1, &bo, &vec![false; bo.len()], true, true);
 
     // ---- level 2: pairs of first-level results
     let n2 = args.tier.pick(300, 2000);
@@ -1018,7 +1447,7 @@ pub fn main() {
     let b_models: Vec<X> = b.iter().map(|&x| soft::from_f64(f64::from_bits(x))).collect();
     let so: Vec<Opd> = subset.iter().map(|&x| Opd::Raw(x)).collect();
     let dup: Vec<bool> = subset.iter().map(|x| { let m = soft::decode80(x); b_models.iter().any(|&bm| soft::same(bm, m)) }).collect();
-    let l2 = run_level(2, &so, &dup, false);
+    let l2 = run_level(2, &so, &dup, false, args.tier.pick(false, true));
 
     let mut acc = Acc::new();
     acc.merge(l1.acc.clone());
@@ -1033,6 +1462,17 @@ pub fn main() {
     let (sq_pairs_b, sq_pairs_2) = (sq.pairs, sq2.pairs);
     sq.merge(sq2);
 
+    // ---- interference: every operation on a few operand pairs, repeated while other threads compute (interfere.rs)
+    let opd_of = |f: f64| {
+        let o = Opd::F64(f.to_bits());
+        if !bo.contains(&o) {
+            run.machinery_failure("an operand of the interference sample is not a member of the boundary set");
+        }
+        o
+    };
+    let sample_pairs = [(opd_of(3.0), opd_of(10.0)), (opd_of(0.1), opd_of(1.0 / 3.0)), (opd_of(123.456), opd_of(-2.0 / 3.0)), (opd_of(1.0 + f64::EPSILON), opd_of(1e17))];
+    let ipass = interference_pass(&sample_pairs);
+
     // informational only: a change here would be the doing of the code under test (and would show as arithmetic
     // violations), so it is not turned into a machinery failure
     let after: Vec<u16> = rayon::broadcast(|_| control_word());
@@ -1040,12 +1480,12 @@ pub fn main() {
 
     // ---- coverage
     let evaluations: u64 = acc.evals.iter().sum();
-    let evaluations = evaluations + sq.sequences;
+    let evaluations = evaluations + sq.sequences + ipass.cases;
     run.cov("evaluations", evaluations);
     run.cov("distinct_nontrivial", acc.c[C_DISTINCT]);
     run.cov(
         "rule",
-        "level 1: every unary operation (from_f64, f64->f80->f64, neg, abs, f80->f64) on every member and every binary operation (add sub mul div, the four assigning forms, min max, lt le gt ge eq partial_cmp, eq-vs-partial_cmp) on every ORDERED pair of the boundary set B of f64 bit patterns; level 2: the same (without from_f64 / roundtrip) on every ordered pair of a fixed subset of the level-1 arithmetic results (duplicates removed, 4/5 of them not representable in f64; taken from the model, which level 1 shows to equal the real results); every arithmetic result is additionally converted to f64; dependent sequences: for every ordered pair (a, step) of B and of every fourth level-2 operand, every assigning operator (+= -= *= /=), every distinct value lim of the model's sequence x_0 = a, x_{i+1} = x_i op step (i < 4) and every relation (lt le gt ge eq partial_cmp), ONE local variable x is compared with lim, updated in place and compared again, in five loop shapes (for with a run-time bound, written out, iterator fold, `while x R lim && n < 4`, `if x R lim { update }` in a for loop) compiled with optimisation and without any barrier between the iterations; the result codes / the number of updates and the final x are compared with the model running the same sequence (one evaluation per loop). A case is counted in distinct_nontrivial when it is an arithmetic case (operation, operand pair — distinct by construction; level-2 pairs whose operands both coincide with B members are left out) whose exact result is NOT representable with a 64-bit significand, i.e. the rounding logic decided the answer.",
+        "level 1: every unary operation (from_f64, f64->f80->f64, neg, abs, f80->f64) on every member and every binary operation (add sub mul div, the four assigning forms, min max, lt le gt ge eq partial_cmp, eq-vs-partial_cmp) on every ORDERED pair of the boundary set B of f64 bit patterns; WHERE THE OPERANDS LIVE: every case above is a call on two separate temporaries; in addition every binary operation is called (a) on every pair (x, x) of B and of the level-2 operands with BOTH OPERANDS BEING ONE OBJECT — one local variable (`x == x`, `x != x`, `x < x`, `x.partial_cmp(&x)`: the same reference twice; `x + x`, `x.min(x)`, `x -= x`: the same variable read twice) and one element of an array whose other element holds different bytes (`v[0] == v[0]` …) — and (b) on every ordered pair of B (thorough: of the level-2 operands too) with the operands in the ADJACENT ELEMENTS of one `[f80; 2]`, in both orders (`v[0] op v[1]`, `v[1] op v[0]`, `v[0] op= v[1]` with the neighbour required to stay untouched); the expected answers are the same, an f80 is plain data (signatures of such cases end in @same_object, @same_array_element, @array_elements_0_1, @array_elements_1_0); `==` is always called together with `!=`, which must give the opposite answer; level 2: the same (without from_f64 / roundtrip) on every ordered pair of a fixed subset of the level-1 arithmetic results (duplicates removed, 4/5 of them not representable in f64; taken from the model, which level 1 shows to equal the real results); every arithmetic result is additionally converted to f64; dependent sequences: for every ordered pair (a, step) of B and of every fourth level-2 operand, every assigning operator (+= -= *= /=), every distinct value lim of the model's sequence x_0 = a, x_{i+1} = x_i op step (i < 4) and every relation (lt le gt ge eq partial_cmp), ONE local variable x is compared with lim, updated in place and compared again, in five loop shapes (for with a run-time bound, written out, iterator fold, `while x R lim && n < 4`, `if x R lim { update }` in a for loop) compiled with optimisation and without any barrier between the iterations; the result codes / the number of updates and the final x are compared with the model running the same sequence (one evaluation per loop). INTERFERENCE (families interference_<operation>): f80 operations are pure functions of their operands, so what other threads compute at the same time cannot change a result; every operation on 4 fixed operand pairs of B is first called on a fresh thread that runs alone (judged against the model), then repeated on that thread until 200 000 repetitions lie in slices of 1 000 consecutive calls during which interfering threads (three; one on a machine with fewer than four processors) demonstrably completed calls of their own — every f80 operation on every ordered pair of 8 other values, in a loop — and every repetition must return exactly what the call returns alone (one evaluation per case); a failure seen by the parallel enumeration is reported as before if it reproduces on a fresh thread running alone, and is otherwise re-executed in the same way under interference; a case whose result depends on the other threads is reported with a replay record that says so (`interference: true`) and re-creates the interference. A case is counted in distinct_nontrivial when it is an arithmetic case (operation, operand pair — distinct by construction; level-2 pairs whose operands both coincide with B members are left out) whose exact result is NOT representable with a 64-bit significand, i.e. the rounding logic decided the answer.",
     );
     run.cov("exhaustive", true);
     run.cov("boundary_set_size", b.len() as u64);
@@ -1073,6 +1513,11 @@ pub fn main() {
     for rel in seq::RELS {
         let f = seq::RELS.iter().position(|&r| r == rel).unwrap();
         fam.insert(rel.family(), json!({"checked": sq.checked[f], "failed": sq.failed[f], "skipped_no_requirement": sq.skipped[f]}));
+    }
+    for (name, checked) in &ipass.cases_per_family {
+        // the first case of an operation whose result depends on the other threads ends its part of the sample
+        let failed = ipass.findings.iter().filter(|(f, _)| f == name).count();
+        fam.insert(name.clone(), json!({"checked": checked, "failed": failed, "skipped_no_requirement": 0}));
     }
     run.cov("families", Value::Object(fam));
     run.cov(
@@ -1108,6 +1553,12 @@ pub fn main() {
     need(&run, so.len() >= n2 * 9 / 10, "fewer level-2 operands than planned");
     need(&run, so.iter().filter(|o| is_wide(o.model())).count() * 2 >= so.len(), "fewer than half of the level-2 operands need more than 53 significand bits");
     need(&run, l2.acc.c[C_PAIRS] == (so.len() * so.len()) as u64, "level 2 did not visit all ordered pairs");
+    for (a, n, arrays) in [(&l1.acc, b.len() as u64, true), (&l2.acc, so.len() as u64, args.tier.pick(false, true))] {
+        let per_pair = BIN_OPS.len() as u64;
+        let want = [n * n, n, if arrays { n * n } else { 0 }, if arrays { n * n } else { 0 }, n].map(|x| x * per_pair);
+        need(&run, (0..PLACES.len()).all(|p| a.c[C_PLACE + p] == want[p]), "not every placement of the operands (separate, same object, adjacent array elements, same array element) was visited on the pairs the rule names");
+    }
+    need(&run, execute(Op::Eq, &bo[0], &bo[0], Place::SameObject) == Raw::EqNe(true, false) && execute(Op::PartialCmp, &bo[0], &bo[0], Place::SameElement) == Raw::Pc(Some(Ordering::Equal)), "0 == 0 on one object does not come out as equal");
     for (lname, a) in [("level 1", &l1.acc), ("level 2", &l2.acc)] {
         need(&run, a.c[C_INEXACT] > 1000 && a.c[C_TIE] > 0 && a.c[C_UP] > 0, &format!("{lname}: rounding paths (inexact, tie, round-up) not all exercised"));
         need(&run, a.c[C_F64ROUTE] > 1000, &format!("{lname}: too few cases would expose an operation routed through f64"));
@@ -1136,7 +1587,7 @@ pub fn main() {
         let i = (seed.wrapping_mul(7).wrapping_add(13 * k + 2)) % set.len();
         let j = (seed.wrapping_mul(11).wrapping_add(29 * k + 5)) % set.len();
         let op = BIN_OPS[(seed + 3 * k) % BIN_OPS.len()];
-        let (o, _) = check_caught(op, &set[i], &set[j]);
+        let (o, _) = check_caught(op, &set[i], &set[j], Place::Separate);
         run.sample(json!({
             "level": lvl, "op": op.name(), "a": set[i].describe(), "b": set[j].describe(),
             "family": fam_name(o.fam), "expected": show_val(&o.expected), "observed": show_val(&o.observed),
@@ -1158,21 +1609,73 @@ pub fn main() {
         run.sample(seq::sample_json(&seq::Case { form, rel, op, a: bo[i], step: bo[j], lim }));
     }
 
-    // ---- violations: the first failing case of every family
+    // ---- violations: the first failing case of every family.  The enumeration runs on many threads at once; a
+    // failure it saw is reported as before when it reproduces on a thread that runs alone, and is otherwise
+    // re-executed under interference (a result that depends on what other threads compute)
+    let mut seen: Vec<(Violation, Recorded)> = vec![];
     for f in 0..NFAM {
         if let Some(r) = &acc.first[f] {
-            let sig = format!("{}:{}", fam_name(f), case_text(r.op, &r.a, &r.b));
+            let sig = format!("{}:{}", fam_name(f), case_text(r.op, &r.a, &r.b, r.place));
             let summary = format!("{} ({} of {} checked cases of this family fail)", r.summary, acc.fails[f], acc.evals[f]);
-            run.violation(Violation::new(sig, summary, case_json(f, r.op, &r.a, &r.b)));
+            seen.push((Violation::new(sig, summary, case_json(f, r.op, &r.a, &r.b, r.place)), Recorded::Single { op: r.op, a: r.a, b: r.b, place: r.place }));
         }
     }
     for r in sq.first.iter().flatten() {
         let f = seq::RELS.iter().position(|&x| x == r.case.rel).unwrap();
         let summary = format!("{} ({} of {} checked loops of this family fail)", r.summary, sq.failed[f], sq.checked[f]);
-        run.violation(Violation::new(r.case.signature(), summary, r.case.to_json()));
+        seen.push((Violation::new(r.case.signature(), summary, r.case.to_json()), Recorded::Sequence(r.case)));
+    }
+    let mut interference_findings: Vec<(String, Violation)> = ipass.findings.clone();
+    let (mut seen_not_alone, mut seen_explained) = (0u64, 0u64);
+    for (v, case) in seen {
+        if confirm(&v.replay).is_err() {
+            run.violation(v); // reproduces on a thread that runs alone
+            continue;
+        }
+        seen_not_alone += 1;
+        let fam = case.interference_family();
+        if interference_findings.iter().any(|(f, _)| case.explained_by().contains(f)) {
+            seen_explained += 1;
+            continue;
+        }
+        match on_fresh_thread(move || under_interference(&case, None, None)) {
+            Ok(UnderInterference::Depends { text, example }) => {
+                seen_explained += 1;
+                interference_findings.push((fam, case.interference_violation(&text, &example)));
+            }
+            // neither alone nor under interference: reported as it was seen, and `finish` will say that it does
+            // not reproduce (exit 2, no verdict)
+            _ => run.violation(Violation::new(v.signature, format!("{} [seen during the parallel enumeration; it did not show again, neither on a thread running alone nor under interference]", v.summary), v.replay)),
+        }
+    }
+    for (_, v) in &interference_findings {
+        let mut v = v.clone();
+        if seen_not_alone > 0 {
+            v.summary = format!("{} [{seen_not_alone} failure(s) seen by the parallel enumeration did not reproduce on a thread running alone; {seen_explained} of them are operations whose result depends on the other threads]", v.summary);
+        }
+        run.violation(v);
+    }
+    run.cov(
+        "interference_pass",
+        json!({
+            "interfering_threads": ipass.threads, "cases_(operation,_operand_pair)": ipass.cases, "cases_not_judged_because_they_fail_alone": ipass.cases_not_judged_because_they_fail_alone,
+            "repetitions_per_case_in_slices_under_interference_at_least": interfere::REPS, "slice_(consecutive_repetitions_between_two_looks_at_the_interfering_threads)": interfere::SLICE,
+            "repetitions_under_interference_that_returned_what_the_call_returns_alone": ipass.repetitions,
+            "calls_made_by_the_interfering_threads_meanwhile": ipass.calls_of_the_interfering_threads,
+            "operations_whose_result_depends_on_other_threads": interference_findings.len(),
+            "failures_of_the_parallel_enumeration_that_did_not_reproduce_alone": seen_not_alone, "of_these_explained_by_interference": seen_explained,
+        }),
+    );
+    if ipass.starved && !run.has_violations() {
+        run.machinery_failure("interference pass: the interfering threads did not run while a call was repeated (overloaded machine?), no verdict from it");
+    }
+    if !run.has_violations() && (ipass.cases != (ALL_OPS.len() * sample_pairs.len()) as u64 || ipass.repetitions < ipass.cases * interfere::REPS) {
+        run.machinery_failure("interference pass: not every operation of the sample was repeated under interference");
     }
     run.assume("the ten bytes at offset 0 of an f80 value are its x87 double-extended encoding (read with transmute_copy)");
     run.assume("second-level operands are the first-level results in canonical x87 encoding as computed by the model; level 1 checks that the real code produces exactly these values (counter arith_results_passing_but_not_canonical_bytes = 0 means: the very same bytes), so the subset and the level-2 signatures do not move when the code under test is changed");
+    run.assume("interference pass: whether two threads really execute at the same instant is up to the machine; the pass only counts repetitions made while an interfering thread demonstrably made progress (no clock involved) and gives no verdict (exit 2) if that never happens; state shared between threads is detected when a collision changes the returned value within 200 000 such repetitions — a window so narrow that this many repetitions practically never hit it is not detected");
+    run.assume("operand placement: overlapping operands cannot be expressed in safe Rust for a 16-byte aligned 16-byte type; same object and adjacent array elements are what is covered; by-value operations (`x + x`, `x.min(x)`) copy their operands, whether the callee then sees one address or two is the compiler's choice");
     run.assume("dependent sequences: the loops are compiled into the engine with its release profile (opt-level 3); a comparison or operator that promises the compiler too much (inline assembly marked pure / nomem, missing clobbers) is caught only if the optimiser of the installed tool chain exploits it in one of the five loop shapes — the family shows that these shapes compute what the model computes, it does not prove that no other shape is miscompiled");
     run.finish(&confirm)
 }
